@@ -612,4 +612,218 @@ theorem real_time_raft_index {s s1 s2 : Cl N Conn S Cmd Reply} (r : CReach step 
     k < (s1.raft.nodes l).log.length + 1 :=
   RS.commit_order_respects_real_time (reach_cinv step s0 r).raftR c (csteps_raft step st1) l id hl (csteps_raft step st2) c2 hm hsame
 
+
+/-! ## non-vacuity: a concrete run of a 2-node cluster with two clients, every guard checked
+
+    L0: node 0 campaigns in term 1, node 1 votes for it, node 0 becomes leader (quorum `{0,1}`) and appends its no-op (raft index 1).
+    Client A (connection 0 of node 0) submits `5` with id 1; client B (connection 0 of node 1) submits `7` with id 2.  B's proposal
+    reaches the leader FIRST (raft index 2), A's second (index 3).  The leader replicates to node 1, commits index 3, a heartbeat
+    tells node 1.  Node 0 skips the no-op and applies `{2,7}` (foreign there); node 1 skips the no-op, applies `{2,7}`, B receives `7`;
+    node 0 applies `{1,5}`, A receives `12` (`c20`).  AFTER that B submits `1` with id 3; it is appended (index 4), replicated,
+    committed; node 1 catches up with `{1,5}` (foreign there), applies `{3,1}`, B receives `13` (`c30`).  Node 0 has applied raft
+    index 3, node 1 index 4.  State machine: `Rendezvous.exStep` (an accumulator; the reply is the new total). -/
+section example_run
+open RS Rendezvous
+
+abbrev ExCl := Cl 2 Nat Nat Nat Nat
+
+def c0 : ExCl := Cl.init 2 0
+def c1 : ExCl := { c0 with raft := doTimeout c0.raft 0 }
+def c2 : ExCl := { c1 with raft := doUpdateTerm c1.raft 1 1 }
+def c3 : ExCl := { c2 with raft := doGrant c2.raft 1 0 1 }
+def c4 : ExCl := { c3 with raft := doBecomeLeader c3.raft 0 {0, 1} }
+def c5 : ExCl := { c4 with m := Multi.next exStep c4.m (.submit 0 0 5 1), prop := fun v => if v = 1 then some 5 else c4.prop v }
+def c6 : ExCl := { c5 with m := Multi.next exStep c5.m (.submit 1 0 7 2), prop := fun v => if v = 2 then some 7 else c5.prop v }
+def c7 : ExCl := proposeAt c6 0 2
+def c8 : ExCl := proposeAt c7 0 1
+def c9 : ExCl := { c8 with raft := doSendAE c8.raft 0 0 3 }
+def c10 : ExCl := { c9 with raft := doHandleAE c9.raft 1 0 1 0 [⟨1, 0⟩, ⟨1, 2⟩, ⟨1, 1⟩] 0 }
+def c11 : ExCl := { c10 with raft := doAdvanceCommit c10.raft 0 3 }
+def c12 : ExCl := { c11 with raft := doSendHB c11.raft 0 1 3 }
+def c13 : ExCl := { c12 with raft := doHandleHB c12.raft 1 3 }
+
+local macro "csimp" : tactic =>
+  `(tactic| simp [c13, c12, c11, c10, c9, c8, c7, c6, c5, c4, c3, c2, c1, c0, proposeAt, Cl.init, RS.init, doTimeout, doUpdateTerm, doGrant,
+      doBecomeLeader, doClientReq, doSendAE, doHandleAE, doAdvanceCommit, doSendHB, doHandleHB, RS.upd, lastTerm, termAt, upToDate, follAppend,
+      appendFrom])
+
+theorem s1 : CStep exStep c0 c1 := .raft c0 _ (Step.timeout _ 0 (by csimp)) (fun _ => Or.inl rfl)
+theorem s2 : CStep exStep c1 c2 := .raft c1 _ (Step.updateTerm _ 1 1 (by csimp)) (fun _ => Or.inl rfl)
+theorem s3 : CStep exStep c2 c3 := .raft c2 _ (Step.grant _ 1 0 1 0 0 (by csimp) (by csimp) (by csimp) (by csimp)) (fun _ => Or.inl rfl)
+theorem s4 : CStep exStep c3 c4 := .raft c3 _ (Step.becomeLeader _ 0 {0, 1} (by decide) (by csimp) (by
+    intro j hj
+    simp only [Finset.mem_insert, Finset.mem_singleton] at hj
+    rcases hj with rfl | rfl
+    · exact Or.inl rfl
+    · right; csimp)) (by
+    intro t
+    by_cases ht : t = 1
+    · subst ht; right; exact ⟨[], by csimp⟩
+    · left; csimp; intro h; exact absurd h ht)
+theorem s5 : CStep exStep c4 c5 := .submit c4 0 0 5 1 rfl (by decide) rfl
+theorem s6 : CStep exStep c5 c6 := .submit c5 1 0 7 2 rfl (by decide) rfl
+theorem s7 : CStep exStep c6 c7 := .propose c6 0 2 7 (by csimp) rfl rfl
+theorem s8 : CStep exStep c7 c8 := .propose c7 0 1 5 (by csimp) rfl rfl
+
+theorem s9 : CStep exStep c8 c9 := .raft c8 _ (Step.sendAE _ 0 0 3 (by csimp) (by csimp)) (fun _ => Or.inl rfl)
+theorem s10 : CStep exStep c9 c10 :=
+  .raft c9 _ (Step.handleAE _ 1 0 1 0 0 [⟨1, 0⟩, ⟨1, 2⟩, ⟨1, 1⟩] 0 (by csimp) (by csimp) (by csimp) (by csimp)) (fun _ => Or.inl rfl)
+theorem s11 : CStep exStep c10 c11 :=
+  .raft c10 _ (Step.advanceCommit _ 0 3 {0, 1} (by csimp) (by csimp) (by csimp) (by decide) (by
+    intro j hj
+    simp only [Finset.mem_insert, Finset.mem_singleton] at hj
+    rcases hj with rfl | rfl
+    · exact ⟨3, Nat.le_refl _, by csimp⟩
+    · exact ⟨3, Nat.le_refl _, by csimp⟩)) (fun _ => Or.inl rfl)
+theorem s12 : CStep exStep c11 c12 :=
+  .raft c11 _ (Step.sendHB _ 0 1 3 (by csimp) (by csimp) (Or.inr ⟨3, Nat.le_refl _, by csimp⟩)) (fun _ => Or.inl rfl)
+theorem s13 : CStep exStep c12 c13 :=
+  .raft c12 _ (Step.handleHB _ 1 0 1 3 (by csimp) (by csimp) (by csimp)) (fun _ => Or.inl rfl)
+
+def c14 : ExCl := { c13 with ap := fun j => if j = 0 then c13.ap 0 + 1 else c13.ap j }
+def c15 : ExCl := { c14 with m := Multi.next exStep c14.m (.apply 0 ⟨2, 7⟩), ap := fun j => if j = 0 then c14.ap 0 + 1 else c14.ap j }
+def c16 : ExCl := { c15 with ap := fun j => if j = 1 then c15.ap 1 + 1 else c15.ap j }
+def c17 : ExCl := { c16 with m := Multi.next exStep c16.m (.apply 1 ⟨2, 7⟩), ap := fun j => if j = 1 then c16.ap 1 + 1 else c16.ap j }
+def c18 : ExCl := { c17 with m := Multi.next exStep c17.m (.receive 1 0) }
+def c19 : ExCl := { c18 with m := Multi.next exStep c18.m (.apply 0 ⟨1, 5⟩), ap := fun j => if j = 0 then c18.ap 0 + 1 else c18.ap j }
+def c20 : ExCl := { c19 with m := Multi.next exStep c19.m (.receive 0 0) }
+
+local macro "dsimp'" : tactic =>
+  `(tactic| (simp only [c20, c19, c18, c17, c16, c15, c14]; csimp))
+
+theorem s14 : CStep exStep c13 c14 := .applyNoop c13 0 1 (by csimp) (by csimp)
+theorem s15 : CStep exStep c14 c15 := .applyEntry c14 0 1 2 7 (by dsimp') (by dsimp') (by decide) rfl
+theorem s16 : CStep exStep c15 c16 := .applyNoop c15 1 1 (by dsimp') (by dsimp')
+theorem s17 : CStep exStep c16 c17 := .applyEntry c16 1 1 2 7 (by dsimp') (by dsimp') (by decide) rfl
+theorem s18 : CStep exStep c17 c18 := .receive c17 1 0 rfl
+theorem s19 : CStep exStep c18 c19 := .applyEntry c18 0 1 1 5 (by dsimp') (by dsimp') (by decide) rfl
+theorem s20 : CStep exStep c19 c20 := .receive c19 0 0 rfl
+
+
+def c21 : ExCl := { c20 with m := Multi.next exStep c20.m (.submit 1 0 1 3), prop := fun v => if v = 3 then some 1 else c20.prop v }
+def c22 : ExCl := proposeAt c21 0 3
+def c23 : ExCl := { c22 with raft := doSendAE c22.raft 0 3 1 }
+def c24 : ExCl := { c23 with raft := doHandleAE c23.raft 1 0 1 3 [⟨1, 3⟩] 3 }
+def c25 : ExCl := { c24 with raft := doAdvanceCommit c24.raft 0 4 }
+def c26 : ExCl := { c25 with raft := doSendHB c25.raft 0 1 4 }
+def c27 : ExCl := { c26 with raft := doHandleHB c26.raft 1 4 }
+def c28 : ExCl := { c27 with m := Multi.next exStep c27.m (.apply 1 ⟨1, 5⟩), ap := fun j => if j = 1 then c27.ap 1 + 1 else c27.ap j }
+def c29 : ExCl := { c28 with m := Multi.next exStep c28.m (.apply 1 ⟨3, 1⟩), ap := fun j => if j = 1 then c28.ap 1 + 1 else c28.ap j }
+def c30 : ExCl := { c29 with m := Multi.next exStep c29.m (.receive 1 0) }
+
+local macro "esimp" : tactic =>
+  `(tactic| (simp only [c30, c29, c28, c27, c26, c25, c24, c23, c22, c21]; dsimp'))
+
+theorem s21 : CStep exStep c20 c21 := .submit c20 1 0 1 3 rfl (by decide) rfl
+theorem s22 : CStep exStep c21 c22 := .propose c21 0 3 1 (by esimp) rfl rfl
+theorem s23 : CStep exStep c22 c23 := .raft c22 _ (Step.sendAE _ 0 3 1 (by esimp) (by esimp)) (fun _ => Or.inl rfl)
+theorem s24 : CStep exStep c23 c24 :=
+  .raft c23 _ (Step.handleAE _ 1 0 1 3 1 [⟨1, 3⟩] 3 (by esimp) (by esimp) (by esimp) (by esimp)) (fun _ => Or.inl rfl)
+theorem s25 : CStep exStep c24 c25 :=
+  .raft c24 _ (Step.advanceCommit _ 0 4 {0, 1} (by esimp) (by esimp) (by esimp) (by decide) (by
+    intro j hj
+    simp only [Finset.mem_insert, Finset.mem_singleton] at hj
+    rcases hj with rfl | rfl
+    · exact ⟨4, Nat.le_refl _, by esimp⟩
+    · exact ⟨4, Nat.le_refl _, by esimp⟩)) (fun _ => Or.inl rfl)
+theorem s26 : CStep exStep c25 c26 :=
+  .raft c25 _ (Step.sendHB _ 0 1 4 (by esimp) (by esimp) (Or.inr ⟨4, Nat.le_refl _, by esimp⟩)) (fun _ => Or.inl rfl)
+theorem s27 : CStep exStep c26 c27 :=
+  .raft c26 _ (Step.handleHB _ 1 0 1 4 (by esimp) (by esimp) (by esimp)) (fun _ => Or.inl rfl)
+theorem s28 : CStep exStep c27 c28 := .applyEntry c27 1 1 1 5 (by esimp) (by esimp) (by decide) rfl
+theorem s29 : CStep exStep c28 c29 := .applyEntry c28 1 1 3 1 (by esimp) (by esimp) (by decide) rfl
+theorem s30 : CStep exStep c29 c30 := .receive c29 1 0 rfl
+
+theorem c20_reach : CReach exStep 0 c20 :=
+  .step (.step (.step (.step (.step (.step (.step (.step (.step (.step (.step (.step (.step (.step (.step (.step (.step (.step (.step (.step
+    .init s1) s2) s3) s4) s5) s6) s7) s8) s9) s10) s11) s12) s13) s14) s15) s16) s17) s18) s19) s20
+
+theorem c30_reach : CReach exStep 0 c30 :=
+  .step (.step (.step (.step (.step (.step (.step (.step (.step (.step c20_reach s21) s22) s23) s24) s25) s26) s27) s28) s29) s30
+
+def cL : List (Entry Nat Nat) := [⟨2, 7⟩, ⟨1, 5⟩, ⟨3, 1⟩]
+
+theorem c30_shared : SharedLog c30 cL := by
+  refine ⟨⟨?_, Or.inr ⟨1, rfl⟩⟩, Or.inr ⟨1, ?_, ?_⟩⟩
+  · intro i
+    match i with
+    | 0 => exact ⟨[⟨3, 1⟩], rfl⟩
+    | 1 => exact ⟨[], rfl⟩
+  · esimp
+  · esimp; simp [decLog, dec, cL]
+
+
+/-- both clients have received the replies of their own commands, at their own positions of the shared log `cL` (= the decoded
+    committed prefix of node 1's raft log): A `12` = 7 + 5 (position 1), B `7` (position 0) and `13` (position 2) -/
+example : CReach exStep 0 c30 ∧ SharedLog c30 cL ∧ (c30.m.node 0).delivered 0 = [12] ∧ (c30.m.node 1).delivered 0 = [7, 13] ∧
+    (c30.raft.nodes 1).log.map (·.data) = [0, 2, 1, 3] ∧ c30.ap 0 = 3 ∧ c30.ap 1 = 4 ∧
+    Multi.OwnReplyAt exStep 0 c30.m cL 0 0 ∧ Multi.OwnReplyAt exStep 0 c30.m cL 1 0 :=
+  ⟨c30_reach, c30_shared, rfl, rfl, by esimp, rfl, rfl, own_reply_cluster exStep 0 c30_reach c30_shared 0 0,
+    own_reply_cluster exStep 0 c30_reach c30_shared 1 0⟩
+
+/-- `real_time_cross_node`: A's reply was received at node 0 at cluster time 6, B's second command was submitted at node 1 at time 7;
+    their entries are at positions 1 and 2 of the shared log -/
+example : (1 : Nat) < 2 :=
+  real_time_cross_node exStep 0 c30_reach c30_shared (i := 0) (i' := 1) (c := 0) (c' := 0) (k := 0) (k' := 1) (tr := 6) (ti := 7)
+    (id := 1) (id' := 3) (cmd := 5) (cmd' := 1) rfl rfl (by decide) rfl rfl rfl rfl
+
+/-- `C07_linearizable_partial` on the run, whose combined history has three completed operations at two nodes -/
+example : Linearizable exStep 0 (Multi.history c30.m) ∧ (Multi.history c30.m (0, 0) 0).map (·.res) = some (some (6, 12)) ∧
+    (Multi.history c30.m (1, 0) 0).map (·.res) = some (some (4, 7)) ∧ (Multi.history c30.m (1, 0) 1).map (·.res) = some (some (10, 13)) :=
+  ⟨C07_linearizable_partial exStep 0 c30_reach, rfl, rfl, rfl⟩
+
+/-- `applied_prefix` / `applied_agree_index`: in `c30` node 0 holds what node 1 held after two proposals; in `c17` both have applied
+    raft index 2 and hold the same state -/
+example : (c30.m.node 0).log = (c30.m.node 1).log.take 2 ∧ (c30.m.node 0).sm = 12 ∧ (c30.m.node 1).sm = 13 :=
+  ⟨(applied_prefix exStep 0 c30_reach 0 1 (by decide)).1, rfl, rfl⟩
+
+theorem c17_reach : CReach exStep 0 c17 :=
+  .step (.step (.step (.step (.step (.step (.step (.step (.step (.step (.step (.step (.step (.step (.step (.step (.step
+    .init s1) s2) s3) s4) s5) s6) s7) s8) s9) s10) s11) s12) s13) s14) s15) s16) s17
+
+example : (c17.m.node 0).log = (c17.m.node 1).log ∧ (c17.m.node 0).sm = (c17.m.node 1).sm ∧ (c17.m.node 0).log = [⟨2, 7⟩] :=
+  ⟨(applied_agree_index exStep 0 c17_reach 0 1 rfl).2.1, (applied_agree exStep 0 c17_reach 0 1 rfl).2, rfl⟩
+
+/-- `apply_enabled`: in `c30` node 0 is one committed entry behind and can apply it -/
+example : ∃ s', CStep exStep c30 s' ∧ s'.ap 0 = 4 :=
+  apply_enabled exStep 0 c30_reach 0 (by esimp)
+
+/-- `real_time_raft_index`: raft index 3 is committed in `c20`; B's second proposal is appended in `c21 → c22` and committed at index 4
+    in `c25` -/
+example : (3 : Nat) < 3 + 1 :=
+  real_time_raft_index exStep 0 c20_reach (k := 3) (t := 1) (by dsimp') (.tail (.refl _) s21) 0 3 (by esimp)
+    (s2 := c25) (.tail (.tail (.tail (.refl _) s23) s24) s25) (m := 4) (t2 := 1) (by esimp) (by esimp) (by esimp)
+
+end example_run
+
+/-- the hypotheses of `same_prefix_same_keyspace_partial` are satisfiable beyond the trivial log: `Exec.C07.exLog` (a log over five
+    value types) consists of `Deterministic` commands; for any two environment sequences the two replicas agree on it -/
+example (e1 e2 : Nat → Exec.Env) : (∀ args, args ∈ Exec.C07.exLog → Exec.C07.Deterministic args = true) ∧
+    Exec.C07.runLog e1 [] Exec.C07.exLog = Exec.C07.runLog e2 [] Exec.C07.exLog := by
+  have hall : ∀ args, args ∈ Exec.C07.exLog → Exec.C07.Deterministic args = true := by decide +kernel
+  refine ⟨hall, ?_⟩
+  have := (Exec.C07.replicas_agree _ hall e1 e2 [] Exec.C07.NoDLp.nil.noDeadlines Exec.Db.wf_nil Exec.C07.exLog.length).1
+  rwa [List.take_length] at this
+
 end C07Multi
+
+#print axioms C07Multi.sms_prefix
+#print axioms C07Multi.take_ap_step
+#print axioms C07Multi.j0_raft
+#print axioms C07Multi.data_pos
+#print axioms C07Multi.data_pos_unique
+#print axioms C07Multi.cinv_step
+#print axioms C07Multi.reach_cinv
+#print axioms C07Multi.shared_log_exists
+#print axioms C07Multi.applied_agree
+#print axioms C07Multi.applied_prefix
+#print axioms C07Multi.applied_agree_index
+#print axioms C07Multi.own_reply_cluster
+#print axioms C07Multi.real_time_cross_node
+#print axioms C07Multi.C07_linearizable_partial
+#print axioms C07Multi.node_reach
+#print axioms C07Multi.apply_enabled
+#print axioms C07Multi.same_prefix_same_keyspace_partial
+#print axioms C07Multi.real_time_raft_index
+#print axioms C07Multi.c30_reach
+#print axioms C07Multi.c30_shared
